@@ -2,6 +2,10 @@ import Calc.Props.C14
 #print axioms Calc.C14_op_positions
 #print axioms Calc.C14_order
 #print axioms Calc.C14_order_first_failure
+#print axioms Calc.C14_eval_blame_step
+#print axioms Calc.C14_eval_blame
+#print axioms Calc.C14_eval_values_from_table
+#print axioms Calc.C14_stmt_located
 #print axioms Calc.C14_stmt_blame
 #print axioms Calc.C14_one_line_and_continue
 #print axioms Calc.C14_statements_in_order
